@@ -198,6 +198,26 @@ Section ProjModel.
   Definition lscale (s : F) (l : list F) : list F := map (fun a => s * a) l.
   Definition mlscale (s : F) (L : list (list F)) : list (list F) := map (lscale s) L.
 
+  (* ---------------- the "hoisted mean" rewrite (NOT the shipped code) ---------------- *)
+  (* a rewrite of MatrixProjectionImplementation that precomputes projected_mean = P^T * mean in the
+     constructor and evaluates project(x) = P^T * x - projected_mean.  Modelled so that the theorem
+     `project_hoisted_mean_equal` can say what such a rewrite is over an exact field (the same function)
+     and hence where it can differ from the shipped expression: only in rounding, by eps*|P|^T(|x|+|m|),
+     which is NOT relative to the output |P|^T|x - m| (data with a large common offset). *)
+  Definition mpi_project_hoisted (D : nat) (P : mat F) (m x : vec F) : vec F :=
+    fun c => sumn D (fun t => P t c * x t) - sumn D (fun t => P t c * m t).
+
+  Definition mpi_project_hoisted_exec (D d : nat) (P : list (list F)) (m x : list F) : pres (list F) :=
+    if negb (wf_matb D d P) then PDim 2 (length P) D
+    else if negb (Nat.eqb (length m) D) then PDim 3 (length m) D
+    else if negb (Nat.eqb (length x) D) then PDim 4 (length x) D
+    else POk (zip_sub (ptrans_mul D d P x) (ptrans_mul D d P m)).
+
+  (* translation of lists (used to STATE offset invariance at the level of the executed loops):
+     every sample moved by the same offset vector o *)
+  Definition ltrans (o l : list F) : list F := zip_add l o.
+  Definition mltrans (o : list F) (L : list (list F)) : list (list F) := map (ltrans o) L.
+
   (* tail of embed() of the other fifteen *)
   Definition nonprojecting_embed_tail (embedding : list (list F))
     : pres (list (list F) * projecting_function) :=
